@@ -843,6 +843,11 @@ struct H {
 			ops.clear();
 			AnyView cur = root_view(src);
 			int nops = identity_like ? rng.pick({40, 60}) : static_cast<int>(rng.range(0, 3));
+			// "permutation" views: a longer chain of rotated/unrotated/transposed only.  Whole arrays with permuted dimensions are compact
+			// (no gaps) but not in canonical order, whichever dimensions are exchanged (leading, inner or middle ones): the layouts on
+			// which a contiguity shortcut keyed on a few strides goes wrong.
+			bool const perm = !identity_like && !refs[src].el.empty() && rng.coin(18);
+			if(perm) nops = static_cast<int>(rng.range(2, 6));
 			bool ok = true;
 			for(int k = 0; k < nops && ok; ++k) {
 				std::string tok;
@@ -854,6 +859,7 @@ struct H {
 					long f = ex[0].first, l = ex[0].last, n = ex[0].size();
 					if(identity_like && refs[src].el.empty()) { tok = "rotated"; return true; }
 					if(identity_like) { tok = "call:"; for(int j = 0; j < (D < 3 ? D : 3); ++j) { tok += (j ? "," : ""); tok += rng.coin(50) ? std::string("a") : ("r" + std::to_string(ex[static_cast<std::size_t>(j)].first) + "_" + std::to_string(ex[static_cast<std::size_t>(j)].last)); } return true; }
+					if(perm) { if(D < 2) { tok = "rotated"; return true; } switch(rng.pick({35, 30, 35})) { case 0: tok = "rotated"; break; case 1: tok = "unrotated"; break; default: tok = "transposed"; } return true; }
 					bool nostorage = refs[src].el.empty();  // no elements, possibly a null base_: only operations that do no pointer arithmetic
 					for(int tries = 0; tries < 20; ++tries) {
 						switch(nostorage ? rng.pick({30, 25, 25, 0, 0, 0, 0, 20, 0, 0}) : rng.pick({12, 8, 8, 8, 8, 12, 10, 8, 14, 14})) {
@@ -1041,7 +1047,53 @@ struct H {
 			emit(line);
 			emit("q all");
 			for(int r = 0; r < NV; ++r) if(vregs[r].valid && rng.coin(60)) emit("q view " + std::to_string(r));
+			if(rng.coin(25)) all_distinct(rng);
 		}
+	}
+
+	// "+perm" programs: one array of D = 2..4 with extents 2..3 and all-distinct values, a view of it with PERMUTED dimensions (a chain of
+	// rotated / unrotated / transposed: compact, no gaps, but not in canonical order), and one operation that consumes the view
+	// (construction, decay, the two view assignments over an empty / equal-extents / other-extents target).  This is the class of
+	// layouts on which contiguity shortcuts keyed on a few strides go wrong; the random histories reach it too rarely for D = 4.
+	void run_perm_program(Rng& rng) {
+		rebased = false;
+		int D = 2 + rng.pick({20, 35, 45});
+		std::vector<Ex> ex; for(int d = 0; d < D; ++d) ex.push_back(Ex{0, rng.range(2, 3)});
+		emit("o fill 1 " + exts_words(ex) + " " + std::to_string(fresh(rng)));
+		{ auto idxs = box(refs[1].ex);
+		  for(auto const& idx : idxs) { std::string line = "o write 1"; for(long x : idx) line += " " + std::to_string(x); line += " " + std::to_string(fresh(rng)); emit(line); } }
+		emit("q all");
+		std::vector<std::string> ops; int n = static_cast<int>(rng.range(1, 6));
+		for(int k = 0; k < n; ++k) ops.push_back((char const*[]){"rotated", "unrotated", "transposed"}[rng.pick({35, 30, 35})]);
+		AnyView av = build_view(1, ops);
+		std::vector<Ex> vex = std::visit([&](auto const& vs) { return exts_of(mk(vs)); }, av);
+		std::string vw = view_words(1, ops);
+		switch(rng.pick({22, 18, 10, 10, 10, 10, 10, 10})) {
+			case 0: emit("o vctor 2 " + vw + " " + std::to_string(rng.pick({40, 30, 30}))); break;
+			case 1: emit("o decayv 2 " + vw + " " + std::to_string(rng.pick({40, 30, 30}))); break;
+			case 2: emit("o dflt 2 " + std::to_string(D)); emit("o vassign 2 " + vw); break;
+			case 3: emit("o dflt 2 " + std::to_string(D)); emit("o rassign 2 " + vw); break;
+			case 4: emit("o fill 2 " + exts_words(vex) + " " + std::to_string(fresh(rng))); emit("o vassign 2 " + vw); break;
+			case 5: emit("o fill 2 " + exts_words(vex) + " " + std::to_string(fresh(rng))); emit("o rassign 2 " + vw); break;
+			case 6: { std::vector<Ex> other(static_cast<std::size_t>(D), Ex{0, 1}); other[0] = Ex{0, 2}; emit("o fill 2 " + exts_words(other) + " " + std::to_string(fresh(rng))); emit("o vassign 2 " + vw); break; }
+			default: { std::vector<Ex> other(static_cast<std::size_t>(D), Ex{0, 1}); other[0] = Ex{0, 2}; emit("o fill 2 " + exts_words(other) + " " + std::to_string(fresh(rng))); emit("o rassign 2 " + vw); break; }
+		}
+		emit("q all");
+	}
+
+	// gives every element of one live array a distinct value (a run of `write` operations): arrays built by fill / value-initialisation
+	// hold one repeated value, on which an operation that permutes elements (a copy in memory order instead of index order) is invisible
+	void all_distinct(Rng& rng) {
+		auto live = slots_where(true, 0, NT, -1, 1);
+		if(live.empty()) return;
+		int a = choose(rng, live); auto const& r = refs[a];
+		if(r.D == 0 || r.el.size() < 2 || r.el.size() > 64) return;
+		auto idxs = box(r.ex);
+		for(auto const& idx : idxs) {
+			std::string line = "o write " + std::to_string(a); for(long x : idx) line += " " + std::to_string(x); line += " " + std::to_string(fresh(rng));
+			emit(line);
+		}
+		emit("q all");
 	}
 };
 
@@ -1051,12 +1103,13 @@ static void report_oob() {
 	if(fancy::g_oob_deref != 0) { std::fprintf(fans, "OOB-DEREF %ld\n", fancy::g_oob_deref); fancy::g_oob_deref = 0; }
 #endif
 }
+static bool g_perm_mode = false;  // mode suffix "+perm"
 template<class HT> static int child_generated(std::uint64_t seed, long p, bool full, bool c06) {
 	HT h; h.c06 = c06;
 	h.full = full;
 	Rng rng(seed * 1000003ULL + static_cast<std::uint64_t>(p) + (HT::trivial ? 0ULL : 500009ULL) + (full ? 250007ULL : 0ULL) + (c06 ? 125003ULL : 0ULL));  // streams of different modes differ
 	h.il_focus = full && rng.coin(50);
-	h.run_program(rng);
+	if(g_perm_mode) h.run_perm_program(rng); else h.run_program(rng);
 	report_oob();
 	return g_internal ? 3 : 0;
 }
@@ -1083,6 +1136,7 @@ int main(int argc, char** argv) {
 	bool str = mode.rfind("str", 0) == 0;
 	bool il = mode.find("+full") != std::string::npos;
 	bool c06 = mode.find("+c06") != std::string::npos;
+	g_perm_mode = mode.find("+perm") != std::string::npos;
 	fprog = std::fopen(argv[4], "w"); fans = std::fopen(argv[5], "w");
 	if(!fprog || !fans) { std::perror("fopen"); return 2; }
 	setvbuf(fprog, nullptr, _IOLBF, 0); setvbuf(fans, nullptr, _IOLBF, 0);  // a crash must not lose the lines already produced
